@@ -17,7 +17,7 @@ RULE = ('real LeakyBucket + BandwidthLimitedStream objects (one real thread per 
         'below the limit is never made to sleep, and after a contended burst (with threads preempted right after reading the clock) a '
         'stream reading a tiny fraction of the limit is no longer delayed once 20 further reads have passed; O4 every refused read is granted on its first retry and its sleep <= (bytes of reads '
         'currently waiting + own)/max + eps; O5 a read of a failed transfer raises that error without sleeping again; O6 = O4 after '
-        'abandonments.  non-trivial = at least one throttled read (or, for O3 runs, >= 10 reads); distinct = distinct scenario specs')
+        'abandonments.  the end-to-end family covers every stream kind x single/multipart incl. bodies below the 256 KiB read threshold; non-trivial = at least one throttled read (or, for O3 runs, >= 10 reads); distinct = distinct scenario specs')
 ASSUMPTIONS = ['real wall-clock behaviour (sleep overshoot) is represented only by the lateness parameter',
                'B is deliberately loose (calibrated: observed excess <= 5 batches with 8 streams)']
 CASE_TIMEOUT = 120.0
